@@ -47,13 +47,14 @@ type HandlerCfg struct {
 type ClientCfg struct {
 	Proto        Proto
 	JSON         bool
-	SendComp     string   // "" none
-	NilAccept    []string // names passed to WithAcceptCompression with nil constructors: a no-op
-	FailCodec    bool     // install a codec that fails to marshal marked messages
-	OwnTypeCodec bool     // the client's "proto" codec decodes the service's own message type only, and says so with an error that wraps io.EOF (a stream decoder that ran dry): a gRPC Status cannot be decoded
-	OddURL       bool     // the client's URL passes the library's own check (url.ParseRequestURI) but not http.NewRequest's (url.Parse): a fragment with a stray percent sign
-	Broken       bool     // misconfigured (sends with a compression nobody registered): NewClient records an error that every call returns
-	Accept       []string // custom algorithms in registration order (gzip is registered first by the library)
+	SendComp     string        // "" none
+	NilAccept    []string      // names passed to WithAcceptCompression with nil constructors: a no-op
+	FailCodec    bool          // install a codec that fails to marshal marked messages
+	SlowMarshal  time.Duration // the client's codec takes this much fake time to marshal a message (C10: what goes on the wire afterwards must fit the time remaining afterwards)
+	OwnTypeCodec bool          // the client's "proto" codec decodes the service's own message type only, and says so with an error that wraps io.EOF (a stream decoder that ran dry): a gRPC Status cannot be decoded
+	OddURL       bool          // the client's URL passes the library's own check (url.ParseRequestURI) but not http.NewRequest's (url.Parse): a fragment with a stray percent sign
+	Broken       bool          // misconfigured (sends with a compression nobody registered): NewClient records an error that every call returns
+	Accept       []string      // custom algorithms in registration order (gzip is registered first by the library)
 	CompressMin  int
 	ReadMax      int
 	Scratch      bool // an interceptor receives every streamed message into one scratch value of its own (conn-level Receive into a reused message) and copies it to the caller's
@@ -120,6 +121,7 @@ type CallPlan struct {
 	ReuseRequestOf      string // unary: send the very connect.Request object of that earlier call again
 	InterceptDeadline   bool   // Deadline is set by a client interceptor; the caller's own context has CallerDeadline (0: none)
 	CallerDeadline      time.Duration
+	RecvPastEnd         bool          // server stream: the caller calls Receive once more after the stream has reported its end
 	PreSendSleep        time.Duration // the caller creates the stream, then waits this long before its first Send / CloseRequest
 	InterceptorErr      bool          // the plan's error is returned by the outermost handler interceptor, user code never runs
 	InterceptorErrAfter bool          // client-stream: the outermost handler interceptor returns the plan\'s error after the handler has sent its response
